@@ -26,7 +26,7 @@ namespace F = primitiv::functions;
 using vh::BadOp;
 typedef std::vector<Node> NV;
 
-enum Dom { ANY, POS, UNIT };  // nonzero / positive / |x| <= 1
+enum Dom { ANY, POS, UNIT, MID };  // nonzero / positive / |x| <= 1 / 1/2 <= |x| <= 3/2
 
 struct Case {
   std::vector<Shape> ps;
@@ -55,6 +55,7 @@ static std::vector<float> values(Rng &r, std::uint32_t n, Dom dom) {
   std::vector<int> pool;
   if (dom == POS) for (int k = 2; k <= 40; ++k) pool.push_back(k);
   else if (dom == UNIT) for (int k = 1; k <= 8; ++k) { pool.push_back(k); pool.push_back(-k); }
+  else if (dom == MID) for (int k = 4; k <= 12; ++k) { pool.push_back(k); pool.push_back(-k); }
   else for (int k = 1; k <= 20; ++k) { pool.push_back(k); pool.push_back(-k); }
   std::shuffle(pool.begin(), pool.end(), r.g);
   std::vector<float> v(n);
@@ -134,7 +135,7 @@ static Case make_case(const std::string &name, Rng &r) {
       if (fn == "pown") return F::pown(x[0], kk);
       throw BadOp();
     };
-    if (fn == "pown") c.dom = {UNIT};
+    if (fn == "pown") c.dom = {MID};
     return c;
   }
   if (k == "binary" && p.size() == 3) {
@@ -303,7 +304,10 @@ static Case make_case(const std::string &name, Rng &r) {
     } else if (fn == "mean") {
       c.f = [](const NV &x) { return F::batch::mean(x[0]); };
     } else if (fn == "normalize") {
-      c.f = [](const NV &x) { return F::batch::normalize(x[0]); };
+      // samples with a real spread: the batch is a concatenation of separate parameters
+      Shape one = s.resize_batch(1);
+      c.ps = {one, one, one}; c.dom = {ANY, POS, UNIT};
+      c.f = [](const NV &x) { return F::batch::normalize(F::batch::concat({x[0], x[1], x[2]})); };
     } else throw BadOp();
     return c;
   }
@@ -381,6 +385,18 @@ static double eval_total(Device &dev, const Case &c, const std::vector<std::vect
   Node y = c.f(xs);
   if (yshape) *yshape = y.shape();
   Node total = W.empty() ? y : y * F::input<Node>(y.shape(), W, dev);
+  if (!W.empty() && !c.expect_zero) {
+    // Every operand gets a second consumer that is created AFTER f, so that the
+    // reverse sweep reaches f's backward rule with non-zero argument gradients
+    // already accumulated (a rule that assigns instead of adding loses them).
+    total = F::batch::sum(F::sum(F::flatten(total), 0));
+    for (std::size_t i = 0; i < xs.size(); ++i) {
+      std::vector<float> V(xs[i].shape().size());
+      for (std::size_t j = 0; j < V.size(); ++j) V[j] = ((static_cast<int>((j * 7 + i * 3) % 5)) - 2) / 2.0f + 0.25f;
+      Node extra = F::sin(xs[i]) * F::input<Node>(xs[i].shape(), V, dev);
+      total = total + F::batch::sum(F::sum(F::flatten(extra), 0));
+    }
+  }
   std::vector<float> v = total.to_vector();
   double s = 0;
   for (float e : v) s += e;
